@@ -1,8 +1,10 @@
 (* Model/EngineFaults.v -- the engine of Model/Engine.v with INJECTED faults: besides the failures that follow from the shape of the
    destination (a file where a directory is needed ...), the transfer of any source entry may fail for a reason outside the
    model (EIO, ENOSPC, EACCES ... at some system call).  Such a task records an error; what it leaves behind at its own path is
-   arbitrary for a file ([junk]: the old file, a truncated or partial one, nothing) and nothing new for a directory.  Deletions
-   fail only for the reasons Engine.v knows.  No proofs here. *)
+   arbitrary for a file ([junk]: the old file, a truncated or partial one, nothing) and nothing new for a directory.  A DELETION may
+   fail in the same way (unlink / rmdir / remove_dir_all returning EIO, EACCES ...): the entry itself stays; of what is below a
+   directory whose removal failed half-way an arbitrary part is gone ([junk q = None] for the entries below it that went away).
+   No proofs here. *)
 From Coq Require Import NArith ZArith List Bool.
 From SyModel Require Import Engine.
 Import ListNotations.
@@ -12,12 +14,12 @@ Definition estate : Type := (fs * list (path * eaction * err) * list (eaction * 
 Definition fault_effect (junk : path -> option node) (m : fs) (t : task) : fs :=
   match t_src t with
   | Some e => if se_is_dir e then m else fs_set m (t_path t) (junk (t_path t))
-  | None => m
+  | None => fun q => if strict_prefix (t_path t) q then (match junk q with Some _ => m q | None => None end) else m q
   end.
 
 Definition step_f (flt : path -> option err) (junk : path -> option node) (c : cfg) (now : Z) (s : estate) (t : task) : estate :=
   let '(m, errs, evs) := s in
-  match (match t_src t with Some _ => if c_dry_run c then None else flt (t_path t) | None => None end) with
+  match (if c_dry_run c then None else flt (t_path t)) with
   | Some x => (fault_effect junk m t, (t_path t, t_action t, x) :: errs, evs)
   | None => match exec_task c now m t with
             | inl m' => (m', errs, (t_action t, t_path t) :: evs)
